@@ -18,7 +18,7 @@ PROPS = {
         trusted=['T3 std::io::Error modelled as an opaque value with os_code(); libc FALLOC_FL_* constants as on x86_64-linux-gnu'],
     ),
     'C06': dict(
-        vx_units=['vfs'], kx=[],
+        vx_units=['vfs', 'pt'], kx=[],
         design_ref='DESIGN.md section 5, C06',
         not_covered=[
             'symlink / hard-link / rename-of-directory-in-use semantics, O_NOFOLLOW, /proc/self/fd re-opening: kernel semantics behind libc calls',
